@@ -250,3 +250,47 @@ def local_resolver(fn_node: ast.AST):
     def resolve(name: ast.Name):
         return table.get(name.id, [])
     return resolve
+
+
+# ------------------------------------------------------------------ representative points
+def eval_points(e: ast.AST, binding: list):
+    """Three-valued value of a comparison expression when designated terms take concrete
+    representative values.  binding: [(predicate, number)].  Only the expression's AST is
+    interpreted (constants, comparisons, and/or/not); nothing from the repository is executed."""
+    def val(x):
+        for pred, v in binding:
+            if pred(x):
+                return v
+        if isinstance(x, ast.Constant) and isinstance(x.value, (int, float)) and not isinstance(x.value, bool):
+            return x.value
+        return None
+
+    if isinstance(e, ast.Constant) and isinstance(e.value, bool):
+        return e.value
+    if isinstance(e, ast.UnaryOp) and isinstance(e.op, ast.Not):
+        return k_not(eval_points(e.operand, binding))
+    if isinstance(e, ast.BoolOp):
+        vals = [eval_points(v, binding) for v in e.values]
+        return k_and(vals) if isinstance(e.op, ast.And) else k_or(vals)
+    if isinstance(e, ast.Compare):
+        operands = [e.left] + list(e.comparators)
+        vals = []
+        for i, op in enumerate(e.ops):
+            a, b = val(operands[i]), val(operands[i + 1])
+            if a is None or b is None:
+                vals.append(None)
+                continue
+            rel = "<" if a < b else ("=" if a == b else ">")
+            vals.append(REL[rel].get(type(op)))
+        return k_and(vals)
+    return None
+
+
+def interval_profile(e: ast.AST, t: Callable, lo: Callable, hi: Callable, lo_v=10, hi_v=20, points=(5, 10, 15, 20, 25)):
+    return [eval_points(e, [(t, p), (lo, lo_v), (hi, hi_v)]) for p in points]
+
+
+def matches(profile: list, expected: list) -> bool:
+    """expected entries: True = must not be False, False = must be False (unknown leaves such as
+    hasattr(...) may only weaken a True to None)."""
+    return all((p is False) if x is False else (p is not False) for p, x in zip(profile, expected))
